@@ -5,6 +5,9 @@ CONSTANTS
   EmitUnlocked = FALSE
   StallFire = FALSE
   FixedTimer = TRUE
+  Split = TRUE
+  PeekStop = TRUE
+  WireGaps = FALSE
 SPECIFICATION Spec
 INVARIANTS NoPanic NoStateClobber ExactlyOneEOFLast TimingExact
 CHECK_DEADLOCK TRUE
